@@ -533,7 +533,9 @@ func (g *Gen) builtin(x ssa.Value, b *ssa.Builtin, cc *ssa.CallCommon, st *State
 		g.heapSet(st, mv, store(hv, ref, store(sel(hv, ref), k, m.zeroOf(mt.Elem()))))
 	case "print", "println":
 	case "recover":
-		g.setFresh(x, st)
+		// only non-panicking executions are modelled (a diverging call cuts its path),
+		// and there recover returns nil
+		g.setVal(x, "0", x.Type())
 	case "close":
 	default:
 		g.unsup("builtin %s", b.Name())
